@@ -21,7 +21,7 @@ MANIFEST = {
             "TypeError exactly for non-optical input.  Tie: Float run of the same definitions vs EDFA on random fields (1/2 pol, "
             "+-noise, int/float/complex), gv set explicitly, randn spied; oracle uses the statement's noise-free twin call.",
     "note": "Trusted: Lean kernel + Mathlib, translator tools/extractors/optdev.py, harness, numpy arithmetic = textbook formulas to 1e-9 relative, scipy.constants.h, libm. "
-            "BW: only the composition EDFA(..,BW) == BPF(EDFA(..)) is checked (oracle, same draw replayed); the filter itself is C11. "
+            "BW: model = C11's filter model composed after the EDFA model (coefficients spied, draw replayed) + oracle composition check. "
             "Sample ASE power / independence / zero mean: oracle only, 6-sigma bands on >= 2^16 samples. "
             "Axioms: propext, Classical.choice, Quot.sound.",
     "technique": "Lean 4 proof over a generic numeric model (algebra over R, induction over sample lists); Float differential "
@@ -37,7 +37,10 @@ PARTIAL = [
     "sample ASE power = P_ase, zero mean, equal variance P_ase/4 of the four real components and their mutual independence: "
     "statistical oracle (6-sigma bands, >= 2^16 samples; several seeds and 2^18 samples in the thorough tier), not a theorem; the "
     "theorem states the scale factors handed to the unit-variance generator",
-    "BW argument: oracle checks EDFA(x,G,NF,BW) == BPF(EDFA(x,G,NF),BW) on the same draw; band-limiting itself is property C11",
+    "BW argument: modelled as C11's Filter.bpf after edfa with the sections / zi / pad length spied from scipy (theorems edfa_bw_*: "
+    "definitional composition, all four rows filtered alike, out.noise = bpf(sqrt(G) in.noise + ase) = bpf(sqrt(G) in.noise) + bpf(ase), "
+    "lengths); the oracle also checks EDFA(x,G,NF,BW) == BPF(EDFA(x,G,NF),BW) on the same draw; the shape of the Bessel response is "
+    "C11's (oracle-only) subject",
     "OSNR clause is proved as the power-budget inequality G Ps/(G Pn+P_ase) <= Ps/Pn (expected powers), not on sample powers",
     "floating-point rounding: theorems are over the reals; the Float run agrees with numpy to 1e-9 relative",
 ]
@@ -76,11 +79,12 @@ def gen_cases(rng, tier):
         G, NF = _gnf(rng)
         cases.append({"kind": "edfa", "field": F.gen_field(rng, n, npol, nk, dt, sc), "G": G, "NF": NF, "BW": None,
                       "gv": _gvspec(rng), "np_seed": rng.randrange(1 << 31)})
-    for _ in range(12 if tier == "quick" else 120):
-        n = rng.choice([64, 128, 257])
+    for _ in range(30 if tier == "quick" else 300):
+        n = rng.choice([16, 17, 33, 64, 128, 257, 8, 15])       # 4th-order Bessel: padding 15 -> rows of <= 15 samples are rejected
         g = _gvspec(rng)
         G, NF = _gnf(rng)
-        cases.append({"kind": "edfa_bw", "field": F.gen_field(rng, n, rng.choice([1, 2]), rng.choice(["none", "random"]), "complex", 1.0),
+        cases.append({"kind": "edfa_bw", "field": F.gen_field(rng, n, rng.choice([1, 2]), rng.choice(["none", "random", "random", "zerosum"]),
+                                                                rng.choice(["complex", "complex", "float"]), rng.choice([1.0, 1e-3])),
                       "G": G, "NF": NF, "BW": rng.uniform(0.05, 0.8) * g["sps"] * g["R"], "gv": g, "np_seed": rng.randrange(1 << 31)})
     for b in BAD_INPUTS:
         G, NF = _gnf(rng)
@@ -170,7 +174,12 @@ def run_impl(case):
             if case["BW"] is not None and len(spied) == 1:
                 draw = spied[0]["values"]
                 np.random.randn = lambda *shape: draw.copy()
-                yb, err = _call(EDFA, x, case["G"], case["NF"], case["BW"])
+                import opticomlib.devices as dev
+                from harness.props import c11
+                with c11._Spy(dev) as fspy:          # sections / padding scipy actually used (parameters of the C11 model)
+                    yb, err = _call(EDFA, x, case["G"], case["NF"], case["BW"])
+                    fspy.on = False
+                    res["fparams"], res["fremarks"] = c11._params(fspy)
                 np.random.randn = orig
                 res["bw"] = err if err else {"status": "ok", **F.dump_signal(yb)}
                 yf, err = _call(BPF, y, case["BW"])
@@ -212,11 +221,51 @@ def model_requests(case, res):
     if "draw" not in res:
         return []      # randn was not called as (4, N): the oracle reports it
     d = res["draw"]
-    return ["edfa.run 1 " + consts + " " + " ".join(enc_flist(r) for r in d) + " " + F.enc_field(case["field"]["sig"], case["field"]["noise"]),
+    extra = []
+    if case["kind"] == "edfa_bw" and res.get("fparams"):
+        p = res["fparams"]
+        secs = [str(len(p["sos"]))]
+        for row, z in zip(p["sos"], p["zi"]):
+            secs += [enc_f(row[0]), enc_f(row[1]), enc_f(row[2]), enc_f(row[4]), enc_f(row[5]), enc_f(z[0]), enc_f(z[1])]
+        extra = ["edfa.runbw " + consts + " " + " ".join(enc_flist(r) for r in d) + f" {p['edge']} " + " ".join(secs) + " "
+                 + F.enc_field(case["field"]["sig"], case["field"]["noise"])]
+    return extra + ["edfa.run 1 " + consts + " " + " ".join(enc_flist(r) for r in d) + " " + F.enc_field(case["field"]["sig"], case["field"]["noise"]),
             "edfa.pase " + " ".join([enc_f(case["NF"]), enc_f(case["G"]), enc_f(res["h"]), enc_f(res["f0"]), enc_f(res["fs"])])]
 
 
+def _compare_bw(case, res, rep):
+    """EDFA(x, G, NF, BW) on the replayed draw against the model `edfaBW` (= C11's bpf after the EDFA model)"""
+    from harness.props import c11
+    out = ["BW: model parameters: " + rm for rm in res.get("fremarks") or []]
+    bw = res.get("bw") or {}
+    if bw.get("status") == "timeout":
+        return out + ["BW: implementation timed out"]
+    if bw.get("status") == "err":
+        return out + ([] if rep == "err " + bw["err"] else [f"BW: implementation raised {bw['err']} ({bw.get('detail', '')[:80]}), model says {rep[:60]!r}"])
+    if bw.get("status") != "ok":
+        return out
+    if not rep.startswith("ok "):
+        return out + [f"BW: implementation returned a signal, model says {rep[:60]!r}"]
+    m_rows, m_noise = c11._read_sig(rep, True)
+    isig = F.c_rows(bw["sig"])
+    inoise = None if bw["noise"] is None else F.c_rows(bw["noise"])
+    un = res["main"]
+    scale = max(F.maxabs(F.c_rows(un["sig"]), None if un.get("noise") is None else F.c_rows(un["noise"])), 1e-300)
+    return out + F.diff_fields("edfa_bw", isig, inoise, [np.array(a, dtype=complex) for a in m_rows],
+                               None if m_noise is None else [np.array(a, dtype=complex) for a in m_noise], scale)
+
+
 def compare(case, res, reqs, replies):
+    pre = []
+    if reqs and reqs[0].startswith("edfa.runbw"):
+        pre = _compare_bw(case, res, replies[0])
+        reqs, replies = reqs[1:], replies[1:]
+    elif case["kind"] == "edfa_bw" and (res.get("bw") or {}).get("status") == "ok":
+        pre = ["BW: the implementation returned a filtered signal but scipy.signal.sosfiltfilt was never observed"]
+    return pre + _compare_main(case, res, reqs, replies)
+
+
+def _compare_main(case, res, reqs, replies):
     if not reqs:
         return []
     m = res["main"]
@@ -357,7 +406,11 @@ def oracle(case, res):
     # BW: composition with the optical filter
     if case["BW"] is not None:
         bw, bp = res.get("bw", {}), res.get("bpf", {})
-        if bw.get("status") != "ok" or bp.get("status") != "ok":
+        if bp.get("status") == "err":
+            # rows not longer than the filter's padding: scipy rejects them, with or without the amplifier around
+            if not (bw.get("status") == "err" and bw.get("err") == bp["err"]):
+                v.append(("C10:bw-short", f"BPF(EDFA(x)) raises {bp['err']} (N={n}) but EDFA(x, BW) gives {str(bw)[:80]}"))
+        elif bw.get("status") != "ok" or bp.get("status") != "ok":
             v.append(("C10:bw-accept", f"EDFA(..., BW) or BPF failed: {str(bw)[:80]} / {str(bp)[:80]}"))
         else:
             d = F.diff_fields("EDFA(x,G,NF,BW) vs BPF(EDFA(x,G,NF),BW)", F.c_rows(bw["sig"]), None if bw["noise"] is None else F.c_rows(bw["noise"]),
@@ -380,7 +433,7 @@ def features(case, res):
     f.append("G=" + ("0" if case["G"] == 0 else "40" if case["G"] == 40 else "mid"))
     f.append(f"sps={case['gv']['sps']}")
     if case["BW"] is not None:
-        f.append("BW")
+        f.append("BW:" + str((res.get("bw") or {}).get("status")) + (":model" if res.get("fparams") else ""))
     if res.get("input_modified"):
         f.append("input-modified-in-place")
     for c in res.get("calls", []):
